@@ -6,8 +6,10 @@ import (
 	"golang.org/x/tools/imports"
 )
 
-// Environment of the code formatter (DESIGN 3.9): go/format and
-// x/tools/imports are stubbed as "fail or return the text unchanged".
+// Environment of the code formatter (DESIGN 3.9): go/format is stubbed as
+// "fail or return the text unchanged", x/tools/imports as "fail, or remove the
+// imports the text does not use" (nothing is added: every generated import is
+// spelled out by the head template).
 type VfFmtEnvT struct {
 	FormatErr  bool
 	ImportsErr bool
@@ -29,5 +31,10 @@ func vfStub_imports_Process(filename string, src []byte, opt *imports.Options) (
 	if VfFmtEnv.ImportsErr {
 		return nil, errors.New("imports: cannot process")
 	}
-	return src, nil
+	if opt != nil && opt.FormatOnly {
+		// documented: with FormatOnly imports are neither added nor removed
+		return src, nil
+	}
+	// the one effect of goimports the generator relies on: unused imports go
+	return []byte(vfPruneImports(string(src))), nil
 }
